@@ -3,7 +3,8 @@
 //! under /verif/run/C12/ (removed at the end).
 //!
 //! kinds
-//!   rt     in = [fields, table]                    out = load(save(state)) : ["ok", fields] | ["err", class]
+//!   rt     in = [fields, table]                    out = [load(save(state)) : ["ok", fields] | ["err", class],
+//!                                                         content of the written file | null]
 //!   load   in = [file bytes, table]                out = load_checkpoint of a file with exactly these
 //!                                                        bytes, executed in a CHILD process with an
 //!                                                        address-space limit (death => ["abort"],
@@ -244,12 +245,17 @@ fn run(kind: &str, input: &Value) -> Value {
             let dir = fresh_dir();
             let mut m = manager(&dir, true, None, CheckpointPolicy::AfterEveryBarrier);
             let s = state_of(&input[0]);
+            // observed: the load outcome and the exact content of the file that was written
             let out = match m.save_checkpoint(&s) {
-                Err(_) => ibv::err("create"),
-                Ok(path) => match m.load_checkpoint(&path) {
-                    Ok(s2) => ibv::ok(fields_of(&s2)),
-                    Err(e) => ibv::err(classify(&e)),
-                },
+                Err(_) => json!([ibv::err("create"), Value::Null]),
+                Ok(path) => {
+                    let image = std::fs::read(&path).unwrap_or_default();
+                    let loaded = match m.load_checkpoint(&path) {
+                        Ok(s2) => ibv::ok(fields_of(&s2)),
+                        Err(e) => ibv::err(classify(&e)),
+                    };
+                    json!([loaded, { "bytes": image }])
+                }
             };
             let _ = std::fs::remove_dir_all(&dir);
             out
